@@ -273,6 +273,29 @@ class C04(CheckBase):
                 lst.append((d.Handle, canon.snap_descriptor(d)))
             for st in part.State:
                 got_states.append((st.Handle if st.is_context_state else st.DescriptorHandle, canon.canon(st)))
+        # against the MDIB itself (history entry of this version): every created / updated descriptor of the report is
+        # exactly what the MDIB held at this commit, is named once, and a deleted one is gone
+        for k in ('descr_created', 'descr_updated'):
+            names = [h for h, _ in got[k]]
+            dup = sorted({h for h in names if names.count(h) > 1})
+            if dup:
+                vers = [(h, c.get('DescriptorVersion')) for h, c in got[k] if h in dup]
+                ctx.violation('C04.truth', f'dmr:{k}:descriptor-named-more-than-once',
+                              f'{ep.name}: description report for commit {v} names {dup} more than once in {k}: {vers}')
+            for h, c in got[k]:
+                want = ref['descriptors'].get(h)
+                if want is None:
+                    if h not in {x for x, _ in got['descr_deleted']}:
+                        ctx.violation('C04.truth', f'dmr:{k}:not-in-mdib', f'{ep.name}: description report for commit {v} '
+                                                                          f'carries {h}, which the MDIB does not hold at that version')
+                elif c != want:
+                    ctx.violation('C04.truth', f'dmr:{k}:differs-from-mdib',
+                                  f'{ep.name}: description report for commit {v}: descriptor {h} is not what the MDIB '
+                                  f'held at that commit: {canon.diff(want, c)[:5]}')
+        for h, _ in got['descr_deleted']:
+            if h in ref['descriptors'] and h not in {x for x, _ in got['descr_created']}:
+                ctx.violation('C04.truth', 'dmr:deleted-but-in-mdib', f'{ep.name}: description report for commit {v} says {h} '
+                                                                      f'was deleted, the MDIB still holds it')
         for k in got:
             g = sorted(got[k], key=lambda x: x[0])
             e = sorted(res[k], key=lambda x: x[0])
